@@ -158,6 +158,8 @@ impl Scheduler {
         crate::__verif::point("spawn/enter");
         // Ensure workers are spawned for this processor (lazy initialization).
         self.inner.ensure_workers_spawned(processor_id);
+        #[cfg(folo_verif)]
+        crate::__verif::point("spawn/after-ensure");
 
         let state = self.inner.registry.get_or_init(processor_id);
 
@@ -223,6 +225,8 @@ impl Scheduler {
         crate::__verif::point("spawn/enter");
         // Ensure workers are spawned for this processor (lazy initialization).
         self.inner.ensure_workers_spawned(processor_id);
+        #[cfg(folo_verif)]
+        crate::__verif::point("spawn/after-ensure");
 
         let state = self.inner.registry.get_or_init(processor_id);
 
